@@ -547,6 +547,9 @@ def fresh_node(rng, ctx, tag):
     import loki.ir as ir
     from loki.expression import symbols as sym
     scope = ctx['zoo_routine']
+    # unique per case, so that nodes made for different pairs of a case are never value-equal by accident
+    ctx['fresh_counter'] = ctx.get('fresh_counter', 0) + 1
+    tag = ctx['fresh_counter'] * 100 + tag % 100
     k = rng.choice(['comment', 'assign', 'loop', 'section', 'pragma', 'cond', 'assoc'])
     if k == 'comment':
         return ir.Comment(text=f'! new {tag}')
@@ -719,7 +722,9 @@ def gen_mapping(rng, ctx, tree, nodes, kind, allow_empty_inner, feats, inplace=F
             if any(x == m for s in k for x in irlab.preorder(s, enter_typedef=True) for m in members):
                 del mapper[k]
                 continue
-            if kind != 'NT' and subtree_has_key(h, _node_keys(mapper)):
+            if kind != 'NT' and (subtree_has_key(h, _node_keys(mapper)) or any(
+                    x == m for x in irlab.preorder(h, enter_typedef=True)
+                    for kk in mapper if isinstance(kk, tuple) for m in kk)):
                 del mapper[k]
             continue
         if isinstance(h, tuple):
@@ -1209,6 +1214,7 @@ def _flat_strings(x):
 def run_case(idx, rng, tier, ctx):
     import collections
     feats = set()
+    ctx['fresh_counter'] = 0
     res = {'sig': None, 'nontrivial': False, 'violations': [], 'inconclusive': None,
            'counters': collections.Counter(), 'features': []}
     try:
